@@ -8,7 +8,9 @@
 //!    "req":[["name",{"k":"terms","field":"cat",...,"sub":[...]}],...],
 //!    "plan":[{"op":"collect","h":1,"part":0},{"op":"merge","a":1,"b":2},{"op":"ser","h":1},{"op":"final","h":1}]}
 //! Field values are small integers; the concretisation is: cat i -> text term TERMS[i] (order
-//! preserving), f i -> f64 i.0, d i -> date of i milliseconds, v/w i -> i64, g i -> u64.
+//! preserving), f i -> f64 i.0, d i -> date of i milliseconds, v/w i -> i64, g i -> u64,
+//! q i -> f64 i/20 (a fractional field in units of 0.05; interval / offset / bounds of a histogram on q
+//! are given in the same units, e.g. interval 2 -> 0.1).
 //! The driver never computes an expected value: it converts the request to tantivy's JSON
 //! format, runs it, and writes the results in a normalised integer-only form (see `num`).
 use serde_json::{json, Map, Value};
@@ -454,6 +456,17 @@ fn term_id(s: &str) -> Option<i64> {
     TERMS.iter().position(|t| *t == s).map(|p| p as i64 - 1)
 }
 
+/// unit of the fractional field q: value i <-> i / QDEN
+const QDEN: f64 = 20.0;
+/// scale of the numbers of a histogram request on `field`
+fn hden(field: &str) -> f64 {
+    if field == "q" {
+        QDEN
+    } else {
+        1.0
+    }
+}
+
 struct Fields {
     cat: Field,
     v: Field,
@@ -462,6 +475,7 @@ struct Fields {
     d: Field,
     g: Field,
     id: Field,
+    q: Field,
 }
 
 fn schema() -> (Schema, Fields) {
@@ -473,7 +487,8 @@ fn schema() -> (Schema, Fields) {
     let d = sb.add_date_field("d", DateOptions::default().set_fast().set_precision(DateTimePrecision::Milliseconds));
     let g = sb.add_u64_field("g", FAST | INDEXED);
     let id = sb.add_u64_field("id", FAST);
-    (sb.build(), Fields { cat, v, w, f, d, g, id })
+    let q = sb.add_f64_field("q", FAST);
+    (sb.build(), Fields { cat, v, w, f, d, g, id, q })
 }
 
 fn ints(doc: &Value, k: &str) -> Vec<i64> {
@@ -510,6 +525,9 @@ fn build_index(docs: &[Value], segs: &[Vec<usize>]) -> tantivy::Result<Index> {
             }
             for x in ints(doc, "id") {
                 d.add_u64(fl.id, x as u64);
+            }
+            for x in ints(doc, "q") {
+                d.add_f64(fl.q, x as f64 / QDEN);
             }
             w.add_document(d)?;
         }
@@ -605,16 +623,17 @@ fn to_agg(a: &Value) -> Value {
         }
         "histogram" => {
             body.insert("field".into(), json!(field));
-            body.insert("interval".into(), json!(a["interval"].as_i64().unwrap_or(1) as f64));
+            let den = hden(field);
+            body.insert("interval".into(), json!(a["interval"].as_i64().unwrap_or(1) as f64 / den));
             if a["offset"].as_i64().unwrap_or(0) != 0 || a.get("offset_set").is_some() {
-                body.insert("offset".into(), json!(a["offset"].as_i64().unwrap_or(0) as f64));
+                body.insert("offset".into(), json!(a["offset"].as_i64().unwrap_or(0) as f64 / den));
             }
             if a.get("mdc_default").and_then(|x| x.as_bool()) != Some(true) {
                 body.insert("min_doc_count".into(), a["mdc"].clone());
             }
             for (from, to) in [("ext", "extended_bounds"), ("hard", "hard_bounds")] {
                 if let Some(b) = a.get(from) {
-                    body.insert(to.into(), json!({"min": b["min"].as_i64().unwrap_or(0) as f64, "max": b["max"].as_i64().unwrap_or(0) as f64}));
+                    body.insert(to.into(), json!({"min": b["min"].as_i64().unwrap_or(0) as f64 / den, "max": b["max"].as_i64().unwrap_or(0) as f64 / den}));
                 }
             }
         }
@@ -739,6 +758,28 @@ fn key_int(field: &str, v: Option<&Value>) -> Value {
     }
 }
 
+/// Key of a bucket of a histogram with a fractional interval (field q), in units of 1/QDEN.
+/// The documented key of a bucket is `pos * interval + offset` evaluated in f64 (pos = the bucket
+/// position, an integer).  The key is reported as the integer `pos * interval_units + offset_units`
+/// only with the certificate that it IS that f64 value, bit for bit; any other float (e.g. one that
+/// is an ulp away, which would make two buckets of one interval) is reported as -777777, which is
+/// a key of no bucket of the specification.
+fn frac_key(a: &Value, v: Option<&Value>) -> Value {
+    let (Some(iu), ou) = (a["interval"].as_i64(), a["offset"].as_i64().unwrap_or(0)) else {
+        return json!(-777777);
+    };
+    let (iv, off) = (iu as f64 / QDEN, ou as f64 / QDEN);
+    let Some(x) = v.and_then(|x| x.as_f64()) else {
+        return json!(-777777);
+    };
+    let pos = ((x - off) / iv).round();
+    if pos.abs() < 1.0e6 && (pos * iv + off).to_bits() == x.to_bits() {
+        json!(pos as i64 * iu + ou)
+    } else {
+        json!(-777777)
+    }
+}
+
 /// result JSON of tantivy -> normalised structure that follows the request
 fn norm_subs(subs: &Value, res: &Value) -> Value {
     let mut out = vec![];
@@ -834,7 +875,8 @@ fn norm_agg(a: &Value, r: &Value) -> Value {
         "histogram" | "date_histogram" => {
             let mut bs = vec![];
             for b in r.get("buckets").and_then(|x| x.as_array()).cloned().unwrap_or_default() {
-                bs.push(json!({"key": key_int(field, b.get("key")), "doc_count": as_count(b.get("doc_count")), "sub": norm_subs(sub, &b),
+                let key = if k == "histogram" && field == "q" { frac_key(a, b.get("key")) } else { key_int(field, b.get("key")) };
+                bs.push(json!({"key": key, "doc_count": as_count(b.get("doc_count")), "sub": norm_subs(sub, &b),
                                "key_as_string": b.get("key_as_string").cloned().unwrap_or(Value::Null)}));
             }
             json!({"buckets": bs, "shape": r.get("buckets").map(|x| x.is_array()).unwrap_or(false)})
